@@ -55,13 +55,52 @@ WEAK = [
 ]
 
 
+def weakgraph_programs():
+    """Ephemeron topologies: three WeakMap entries E_i = M_i.set(K_i, V_i); V_0 / V_1 may hold the next key and/or the next map, so that a map
+    or a key is reachable only through the value of another entry; every subset of {M1, M2, K1, K2} additionally held by a global; every
+    insertion order of the three entries; every value also holds a WeakRef to a global key.  The program then discovers everything reachable
+    by has/get from the globals and prints it: whatever it can name is reachable, so the output may not depend on collections."""
+    out = []
+    names = ["M1", "M2", "K1", "K2"]
+    for gmask in range(16):
+        glob = [n for b, n in enumerate(names) if gmask >> b & 1]
+        for r0 in range(4):
+            for r1 in range(4):
+                refs = [[n for b, n in enumerate(("K1", "M1")) if r0 >> b & 1], [n for b, n in enumerate(("K2", "M2")) if r1 >> b & 1], []]
+                # reachable by the ephemeron rule from the globals
+                maps, keys, seen = {"M0"} | {g for g in glob if g[0] == "M"}, {"K0"} | {g for g in glob if g[0] == "K"}, set()
+                ch = True
+                while ch:
+                    ch = False
+                    for i in range(3):
+                        if i not in seen and f"M{i}" in maps and f"K{i}" in keys:
+                            seen.add(i); ch = True
+                            for r in refs[i]:
+                                (maps if r[0] == "M" else keys).add(r)
+                via_value = [i for i in seen if i > 0 and (f"M{i}" not in glob or f"K{i}" not in glob)]
+                if not via_value:
+                    continue
+                for order in itertools.permutations(range(3)):
+                    sets = " ".join(f"M{i}.set(K{i}, V{i});" for i in order)
+                    src = ('var M0 = new WeakMap(), K0 = {n: "K0"}, G = {}; M0.n = "M0";\n(function () { var M1 = new WeakMap(), M2 = new WeakMap(), K1 = {n: "K1"}, K2 = {n: "K2"}; M1.n = "M1"; M2.n = "M2";\n'
+                           + " ".join(f"G.{g} = {g};" for g in glob)
+                           + f' var V0 = {{n: "V0", refs: [{", ".join(refs[0])}], wr: new WeakRef(K0)}}, V1 = {{n: "V1", refs: [{", ".join(refs[1])}], wr: new WeakRef(K0)}}, V2 = {{n: "V2", refs: [], wr: new WeakRef(K0)}};\n'
+                           + sets + ' })();\nvar junk = []; for (var i = 0; i < 6; i++) junk.push({i});\n'
+                           'var maps = [M0], keys = [K0], seen = []; for (var g in G) (G[g] instanceof WeakMap ? maps : keys).push(G[g]);\n'
+                           'for (var ch = true; ch;) { ch = false; for (var m of maps.slice()) for (var k of keys.slice()) if (m.has(k)) { var v = m.get(k); if (!seen.includes(v)) { seen.push(v); ch = true; '
+                           'for (var r of v.refs) { var l = r instanceof WeakMap ? maps : keys; if (!l.includes(r)) l.push(r) } } } }\n'
+                           'print(seen.map(v => v.n).sort().join(), keys.map(k => k.n).sort().join(), maps.map(m => m.n).sort().join(), seen.every(v => v.wr.deref() === K0));')
+                    out.append(src)
+    return out
+
+
 def programs(tier):
     fam = []
     fam += F.gen_family("quick")[:: (60 if tier == "quick" else 12)]
     fam += F.class_family("quick")[:: (300 if tier == "quick" else 60)]
     fam += F.destr_family("quick")[:: (300 if tier == "quick" else 60)]
     fam += F.ctl_family(3, ("gen", "async"))[:: (250 if tier == "quick" else 50)]
-    return [("strong", p) for p in STRONG + fam] + [("weak", p) for p in WEAK]
+    return [("strong", p) for p in STRONG + fam] + [("weak", p) for p in WEAK] + [("graph", p) for p in weakgraph_programs()]
 
 
 def mask(trace):
@@ -112,7 +151,13 @@ def run(chk):
     meta = []
     for i, ((kind, p), b) in enumerate(zip(progs, base)):
         n = int(b["x"]["allocs"])
-        for s in schedules(n, tier):
+        sch = schedules(n, tier)
+        if kind == "graph" and tier == "quick":
+            # the topologies differ only in the weak structure: periodic schedules and a single collection at each of the last 10 allocation points
+            sch = [x for x in sch if "every" in x.get("gc", {}) and not x.get("gc_setup")] + [{"gc": {"at": [i]}} for i in range(max(0, n - 10), n)]
+        elif kind == "graph":
+            sch = [x for x in sch if len(x.get("gc", {}).get("at", [])) < 2]
+        for s in sch:
             jobs.append({"i": len(jobs), "src": p, "cfg": s})
             meta.append((i, s))
     res = core.run_jobs(jobs)
